@@ -218,6 +218,11 @@ func installSpecials(in *Interp, p *Pkg) {
 				if e != nil {
 					return nil, e
 				}
+				if fk == FnMacro && b.L[0].K == KSym {
+					// a local macro is known by the name its binding gives it
+					// (the frame of its expansion carries that name)
+					f.Fn.Name = localName(b.L[0].S)
+				}
 				if e := in.bindLocal(scope, b.L[0], f); e != nil {
 					return nil, e
 				}
@@ -303,16 +308,27 @@ func installSpecials(in *Interp, p *Pkg) {
 			if len(a) == 1 {
 				return in.Eval(env, cur)
 			}
-			for _, ex := range a[1:] {
+			for i, ex := range a[1:] {
+				// docs/lang.md: "The result of evaluating this expression is then
+				// passed to the function defined in the third argument": the VALUE of
+				// a step reaches the next step as it is.  The step is a form, so a
+				// value that does not evaluate to itself (a symbol or an unquoted list
+				// taken out of a quoted list) travels through a binding of its own.
+				stepEnv, arg := env, cur
+				if i > 0 && !selfEvaluating(cur) {
+					stepEnv = NewEnv(env)
+					stepEnv.vars["\x00threaded-value"] = cur
+					arg = &V{K: KSym, S: "\x00threaded-value"}
+				}
 				var cells []*V
 				if first {
-					cells = append(cells, ex.L[0], cur)
+					cells = append(cells, ex.L[0], arg)
 					cells = append(cells, ex.L[1:]...)
 				} else {
 					cells = append(cells, ex.L...)
-					cells = append(cells, cur)
+					cells = append(cells, arg)
 				}
-				x, e := in.Eval(env, &V{K: KList, L: cells, Src: ex.Src})
+				x, e := in.Eval(stepEnv, &V{K: KList, L: cells, Src: ex.Src})
 				if e != nil {
 					return nil, e
 				}
